@@ -1,7 +1,12 @@
 package main
 
 import (
+	"encoding/json"
 	"fmt"
+	"os"
+	"os/exec"
+	"path/filepath"
+	"regexp"
 	"strings"
 )
 
@@ -30,16 +35,236 @@ func (e *Engine) propertyExtras(prop, only string) ([]*Obligation, []*Unit) {
 	return obls, units
 }
 
+// ---- replay against the real code ----
+
+type replayDriver struct {
+	Properties  []string `json:"properties"`
+	Obligations []string `json:"obligations"`
+	Pkg         string   `json:"pkg"`
+	Driver      string   `json:"driver"`
+	Test        string   `json:"test"`
+	Race        bool     `json:"race"`
+	Sed         string   `json:"sed"`
+	Bounded     string   `json:"bounded"`
+	Bound       string   `json:"bound"`
+}
+
+func loadDrivers() []replayDriver {
+	var f struct {
+		Drivers []replayDriver `json:"drivers"`
+	}
+	data, err := os.ReadFile(filepath.Join(verifDir, "replay_drivers.json"))
+	if err != nil {
+		return nil
+	}
+	if json.Unmarshal(data, &f) != nil {
+		return nil
+	}
+	return f.Drivers
+}
+
+// runDriver runs one witness test against the checked tree by overlay; failed == the test demonstrates the violation.
+func runDriver(repo string, d replayDriver) (failed bool, out string, cmd string) {
+	args := []string{repo, d.Pkg, filepath.Join(verifDir, d.Driver), d.Test}
+	c := exec.Command(filepath.Join(verifDir, "tools", "replay_overlay.sh"), args...)
+	c.Env = os.Environ()
+	cmd = ""
+	if d.Race {
+		c.Env = append(c.Env, "SFRACE=1")
+		cmd += "SFRACE=1 "
+	}
+	if d.Sed != "" {
+		c.Env = append(c.Env, "SFSED="+d.Sed)
+		cmd += "SFSED='" + d.Sed + "' "
+	}
+	cmd += "/verif/tools/replay_overlay.sh " + strings.Join(args, " ")
+	b, err := c.CombinedOutput()
+	out = string(b)
+	if len(out) > 6000 {
+		out = out[len(out)-6000:]
+	}
+	if strings.Contains(out, "no tests to run") || strings.Contains(out, "[build failed]") || strings.Contains(out, "[setup failed]") {
+		// the driver did not run: that is no demonstration
+		return false, out, cmd
+	}
+	return err != nil, out, cmd
+}
+
+// tryReplay (R-driver): a hand-written witness exists for this obligation; run it on the checked tree.
 func tryReplay(e *Engine, ob *Obligation, extra map[string]interface{}) bool {
+	for _, d := range loadDrivers() {
+		hit := false
+		for _, p := range d.Obligations {
+			if strings.HasPrefix(ob.Name, p) {
+				hit = true
+			}
+		}
+		if !hit {
+			continue
+		}
+		failed, out, cmd := runDriver(e.repoDir, d)
+		extra["replay_driver"] = d.Driver + " " + d.Test
+		extra["replay_cmd"] = cmd
+		extra["replay_output"] = out
+		extra["replay_demonstrates_violation"] = failed
+		if failed {
+			return true
+		}
+	}
 	return false
 }
 
-func cmdReplay(args []string) int {
-	fmt.Println("replay: not implemented yet")
-	return 2
+// runBounded: the bounded regression stand-ins of a property (see replay_drivers.json).
+func runBounded(e *Engine, prop, tier, replayDir string) (lines []string, violations []string) {
+	for _, d := range loadDrivers() {
+		if d.Bounded == "" || (d.Bounded == "thorough" && tier != "thorough") {
+			continue
+		}
+		in := false
+		for _, p := range d.Properties {
+			if p == prop {
+				in = true
+			}
+		}
+		if !in {
+			continue
+		}
+		failed, out, cmd := runDriver(e.repoDir, d)
+		res := "passed"
+		if failed {
+			res = "FAILED"
+			path := filepath.Join(replayDir, prop, "bounded_"+d.Test+".json")
+			_ = os.MkdirAll(filepath.Dir(path), 0o755)
+			m := map[string]interface{}{"property": prop, "kind": "bounded.replay", "driver": d.Driver, "test": d.Test, "cmd": cmd, "bound": d.Bound, "output": out}
+			data, _ := json.MarshalIndent(m, "", " ")
+			_ = os.WriteFile(path, data, 0o644)
+			violations = append(violations, fmt.Sprintf("VIOLATION property=%s replay=%s bounded-driver=%s/%s (failing input replayed on the real code: %s)", prop, path, d.Driver, d.Test, cmd))
+		}
+		lines = append(lines, fmt.Sprintf("bounded (not a proof): %s %s on %s — bound: %s — %s", d.Driver, d.Test, d.Pkg, d.Bound, res))
+	}
+	return
 }
 
+// cmdReplay: `sfverify replay <replay file>` re-runs what the replay file records: the witness driver against /repo if
+// there is one (exit 1 if it still demonstrates the violation), else the stored SMT query (exit 1 unless unsat).
+func cmdReplay(args []string) int {
+	if len(args) < 1 {
+		fmt.Println("usage: sfverify replay <path to replay .json>")
+		return 2
+	}
+	data, err := os.ReadFile(args[0])
+	if err != nil {
+		fmt.Println(err)
+		return 2
+	}
+	var m map[string]interface{}
+	if err := json.Unmarshal(data, &m); err != nil {
+		fmt.Println(err)
+		return 2
+	}
+	fmt.Printf("property=%v obligation=%v\n  %v [%v]\n", m["property"], m["obligation"], m["desc"], m["pos"])
+	if cmd, ok := m["replay_cmd"].(string); ok && cmd != "" {
+		cmd = regexp.MustCompile(`/var/tmp/sfmut\.[A-Za-z0-9]+`).ReplaceAllString(cmd, "/repo")
+		fmt.Println("running witness driver:", cmd)
+		c := exec.Command("/bin/bash", "-c", cmd)
+		out, err := c.CombinedOutput()
+		fmt.Println(string(out))
+		if err != nil {
+			fmt.Println("REPLAY: the driver fails on /repo: violation demonstrated")
+			return 1
+		}
+		fmt.Println("REPLAY: the driver passes on /repo")
+		return 0
+	}
+	if cmd, ok := m["cmd"].(string); ok && cmd != "" {
+		fmt.Println("running bounded driver:", cmd)
+		c := exec.Command("/bin/bash", "-c", regexp.MustCompile(`/var/tmp/sfmut\.[A-Za-z0-9]+`).ReplaceAllString(cmd, "/repo"))
+		out, err := c.CombinedOutput()
+		fmt.Println(string(out))
+		if err != nil {
+			return 1
+		}
+		return 0
+	}
+	if q, ok := m["query"].(string); ok && q != "" {
+		qd, err := os.ReadFile(q)
+		if err != nil {
+			fmt.Println("stored query not found:", err)
+			return 2
+		}
+		r := Solve(strings.TrimSuffix(strings.TrimSpace(string(qd)), "(check-sat)"), SolveOpts{TimeoutMs: 60000})
+		fmt.Printf("stored obligation query: %s by %s in %d ms (unsat = discharged)\n", r.Status, r.Solver, r.Ms)
+		if r.Status == "unsat" {
+			return 0
+		}
+		return 1
+	}
+	fmt.Println("nothing to replay in this file (structural obligation): see `note`:", m["note"])
+	return 1
+}
+
+// cmdSelftest: the must-fail corpus. Every mutant under selftest/mutants (a change that breaks a property while still
+// compiling) is applied to a scratch copy of /repo and the property's check must report a violation whose obligation
+// name contains the expected substring. Exit 0 iff every mutant is caught (mutants listed in selftest/known_missed.txt
+// are reported but do not fail the run).
 func cmdSelftest(args []string) int {
-	fmt.Println("selftest: not implemented yet")
-	return 2
+	dir := filepath.Join(verifDir, "selftest", "mutants")
+	ents, _ := os.ReadDir(dir)
+	missedOK := map[string]bool{}
+	if data, err := os.ReadFile(filepath.Join(verifDir, "selftest", "known_missed.txt")); err == nil {
+		for _, l := range strings.Split(string(data), "\n") {
+			if f := strings.Fields(l); len(f) > 0 && !strings.HasPrefix(f[0], "#") {
+				missedOK[f[0]] = true
+			}
+		}
+	}
+	only := ""
+	if len(args) > 0 {
+		only = args[0]
+	}
+	bad := 0
+	n := 0
+	for _, en := range ents {
+		if !strings.HasSuffix(en.Name(), ".json") {
+			continue
+		}
+		name := strings.TrimSuffix(en.Name(), ".json")
+		if only != "" && !strings.Contains(name, only) {
+			continue
+		}
+		var meta struct{ Property, Expect string }
+		data, _ := os.ReadFile(filepath.Join(dir, en.Name()))
+		_ = json.Unmarshal(data, &meta)
+		c := exec.Command(filepath.Join(verifDir, "tools", "mutcheck.sh"), filepath.Join(dir, name+".diff"), meta.Property)
+		out, _ := c.CombinedOutput()
+		n++
+		caught, expected := false, false
+		for _, l := range strings.Split(string(out), "\n") {
+			if strings.HasPrefix(l, "VIOLATION ") {
+				caught = true
+				if strings.Contains(l, meta.Expect) {
+					expected = true
+				}
+			}
+		}
+		switch {
+		case strings.Contains(string(out), "PATCH-FAILED"):
+			fmt.Printf("STALE   %s (%s): the mutant no longer applies\n", name, meta.Property)
+			bad++
+		case caught && expected:
+			fmt.Printf("caught  %s (%s)\n", name, meta.Property)
+		case caught:
+			fmt.Printf("caught  %s (%s) by another obligation than expected (%q)\n", name, meta.Property, meta.Expect)
+		case missedOK[name]:
+			fmt.Printf("missed  %s (%s) - listed in selftest/known_missed.txt\n", name, meta.Property)
+		default:
+			fmt.Printf("MISSED  %s (%s)\n", name, meta.Property)
+			bad++
+		}
+	}
+	fmt.Printf("selftest: %d mutants, %d not caught\n", n, bad)
+	if bad > 0 {
+		return 1
+	}
+	return 0
 }
